@@ -161,6 +161,81 @@ def build(u):
          opens_with=RUNPRO('is_hex_digit') + '\n    let ghost a0 = args.offset; let ghost bs = args.input.spec_bytes();',
          hints=[{'at': 'match args.next_byte()', 'where': 'before',
                  'text': '    proof { if args.offset < bs.len() && bs[args.offset as int] < 0x80 { lemma_ascii_boundaries(bs, args.offset as int); } }'}])
+    # decimal literal: digits [. digits] [e|E [+|-] digits]; a fraction / exponent digit run cannot start with '_'
+    u.raw('''
+spec fn dec_run(s: Seq<u8>, o: int) -> int { run_of(s, o, |b: u8| is_dec_digit(b)) }
+spec fn full_dec_run(s: Seq<u8>, o: int) -> int { if 0 <= o < s.len() && s[o] == 0x5f { 0 } else { dec_run(s, o) } }
+spec fn dec_after_int(s: Seq<u8>, o: int) -> int { o + dec_run(s, o) }
+spec fn dec_after_frac(s: Seq<u8>, a: int) -> int {
+    if 0 <= a < s.len() && s[a] == 0x2e && full_dec_run(s, a + 1) > 0 { a + 1 + full_dec_run(s, a + 1) } else { a }
+}
+spec fn dec_after_exp(s: Seq<u8>, b: int) -> int {
+    if 0 <= b < s.len() && (s[b] == 0x65 || s[b] == 0x45) {
+        let c = if b + 1 < s.len() && (s[b + 1] == 0x2b || s[b + 1] == 0x2d) { b + 2 } else { b + 1 };
+        c + full_dec_run(s, c)
+    } else { b }
+}
+spec fn dec_end(s: Seq<u8>, o: int) -> int { dec_after_exp(s, dec_after_frac(s, dec_after_int(s, o))) }
+proof fn lemma_dec_step(s: Seq<u8>, o: int)
+    requires valid_utf8(s), 0 <= o <= s.len(), is_char_boundary(s, o)
+    ensures o <= o + dec_run(s, o) <= s.len(), is_char_boundary(s, o + dec_run(s, o)),
+            o <= o + full_dec_run(s, o) <= s.len(), is_char_boundary(s, o + full_dec_run(s, o))
+{
+    lemma_run_of_bound(s, o, |b: u8| is_dec_digit(b));
+    lemma_ascii_run_boundary(s, o, |b: u8| is_dec_digit(b));
+}
+''')
+    u.fn(LEX, r'^fn dec_number_literal\(mut args: LexArgs\)', name='dec_number_literal',
+         edits=[("Some(&b'e' | b'E')", "Some(b'e' | b'E')", 'D8'), ("Some(&b'+' | b'-')", "Some(b'+' | b'-')", 'D8')],
+         requires=['at_tok(&args)'],
+         ensures=['sub_ok(&args, r)',
+                  'r.0 == dec_end(args.input.spec_bytes(), args.offset as int)',
+                  'r.1 == TT::NumberLiteral(NLK::Decimal)'],
+         opens_with=PRO + '\n    let ghost bs = args.input.spec_bytes(); let ghost o0 = args.offset as int;\n    proof { lemma_dec_step(bs, o0); }',
+         hints=[
+             {'at': "if args.next_byte() == Some(&b'.')", 'where': 'before',
+              'text': '    proof { if args.offset < bs.len() && bs[args.offset as int] == 0x2e { lemma_ascii_boundaries(bs, args.offset as int); lemma_dec_step(bs, args.offset + 1); } }'},
+             {'at': "if matches!(args.next_byte(), Some(b'e' | b'E'))", 'where': 'before',
+              'text': '    proof { assert(args.offset == dec_after_frac(bs, dec_after_int(bs, o0)));\n'
+                      '        if args.offset < bs.len() && (bs[args.offset as int] == 0x65 || bs[args.offset as int] == 0x45) {\n'
+                      '            lemma_ascii_boundaries(bs, args.offset as int);\n'
+                      '            if args.offset + 1 < bs.len() && (bs[args.offset + 1] == 0x2b || bs[args.offset + 1] == 0x2d) { lemma_ascii_boundaries(bs, args.offset + 1); lemma_dec_step(bs, args.offset + 2); }\n'
+                      '            lemma_dec_step(bs, args.offset + 1);\n'
+                      '        } }'},
+         ])
+    u.assume('D8: reference patterns `Some(&b\'e\' | b\'E\')` on Option<&u8> rewritten to `Some(b\'e\' | b\'E\')` (default binding modes: same match semantics); Verus rejects the mixed form')
+    # asm string literal "..." with backslash escapes; ends at the closing quote, or before a line break / at the end
+    u.stub(LEX, r'^fn warn_unterminated\(', name='warn_unterminated')
+    u.fn(LEX, r'^fn asm_text_literal\(mut args: LexArgs\)', name='asm_text_literal', rebind_mut=('args', 'args0'),
+         requires=['at_tok(&args0)'],
+         ensures=['sub_ok(&args0, r)',
+                  'r.1 == TT::TextLiteral(TLK::Asm) || r.1 == TT::TextLiteral(TLK::Unterminated)',
+                  'r.1 == TT::TextLiteral(TLK::Asm) ==> r.0 > args0.offset && args0.input.spec_bytes()[r.0 - 1] == 0x22',
+                  'r.1 == TT::TextLiteral(TLK::Unterminated) ==> r.0 == blen(&args0) || args0.input.spec_bytes()[r.0 as int] == 0x0a || args0.input.spec_bytes()[r.0 as int] == 0x0d',
+                  # a line break inside the literal can only directly follow a backslash
+                  'forall|i: int| args0.offset <= i < r.0 && (#[trigger] args0.input.spec_bytes()[i] == 0x0a || args0.input.spec_bytes()[i] == 0x0d) ==> i > args0.offset && args0.input.spec_bytes()[i - 1] == 0x5c'],
+         opens_with='    proof { lemma_tok(&args0); }\n    let ghost bs = args0.input.spec_bytes();',
+         loops=[{'keyword': 'loop',
+                 'invariant': ['args.input == args0.input', 'bs == args0.input.spec_bytes()', 'valid_utf8(bs)', 'args0.offset <= args.offset <= bs.len()', 'bs.len() <= isize::MAX',
+                               'forall|i: int| args0.offset <= i < args.offset && (#[trigger] bs[i] == 0x0a || bs[i] == 0x0d) ==> i > args0.offset && bs[i - 1] == 0x5c'],
+                 'ensures': ['args.offset == bs.len() || bs[args.offset as int] == 0x0a || bs[args.offset as int] == 0x0d'],
+                 'decreases': 'bs.len() - args.offset'}],
+         hints=[{'at': 'return (args.offset + 1, TT::TextLiteral(TLK::Asm));', 'where': 'before',
+                 'text': '                proof { lemma_ascii_boundaries(bs, args.offset as int); }'},
+                {'at': 'warn_unterminated("asm text literal"', 'where': 'before',
+                 'text': '    proof { if args.offset < bs.len() { lemma_ascii_boundaries(bs, args.offset as int); } else { is_char_boundary_start_end_of_seq(bs); } }'}])
+
+    # identifier starting with a non-ASCII character: first advance to the end of that character
+    u.stub(LEX, r'^fn identifier\(args: LexArgs\)', name='identifier', kx='lexscan::identifier_end',
+           requires=['args.offset <= blen(&args)', 'is_char_boundary(args.input.spec_bytes(), args.offset as int)'],
+           ensures=['sub_ok(&args, r)', 'r.1 == TT::Identifier'])
+    u.fn(LEX, r'^fn unicode_identifier\(mut args: LexArgs\)', name='unicode_identifier', rebind_mut=('args', 'args0'),
+         requires=['1 <= args0.offset <= blen(&args0)', 'blen(&args0) <= isize::MAX'],
+         ensures=['args0.offset <= r.0 <= blen(&args0)', 'is_char_boundary(args0.input.spec_bytes(), r.0 as int)', 'r.1 == TT::Identifier'],
+         opens_with='    let ghost bs = args0.input.spec_bytes();\n    proof { lemma_str_valid(args0.input); is_char_boundary_start_end_of_seq(bs); }',
+         loops=[{'keyword': 'while',
+                 'invariant': ['args.input == args0.input', 'bs == args0.input.spec_bytes()', 'valid_utf8(bs)', 'args0.offset <= args.offset <= bs.len()', 'bs.len() <= isize::MAX', 'is_char_boundary(bs, bs.len() as int)'],
+                 'decreases': 'bs.len() - args.offset'}])
     u.fn(LEX, r'^fn block_comment_kind\(nl_before: bool, nl_inside: bool\)', name='block_comment_kind',
          ensures=['nl_inside ==> r == CommentKind::MultilineBlock',
                   '!nl_inside && nl_before ==> r == CommentKind::IndividualBlock',
